@@ -82,6 +82,10 @@ WORLDS = {
     'objstate': dict(cfg={'p': 2, 'q': 0, 'r': 0}, wrapper=False, obj=True),
     'samename': dict(cfg={'p': 2, 'q': 0, 'r': 0}, wrapper=False, samename=True),
     'samename+w': dict(cfg={'p': 2, 'q': 0, 'r': 0}, wrapper=True, samename=True),
+    # d = 6: inverse and division share the iterative scheme
+    'inv6': dict(cfg={'p': 6, 'q': 0, 'r': 0}, wrapper=False, inv6=True),
+    # d = 3: coefficient access and blades through several spellings of one blade
+    'spell3': dict(cfg={'p': 3, 'q': 0, 'r': 0}, wrapper=False, spell=True),
     # d = 7: the blade table is filled lazily, so it is part of the history dependent state
     'lazy7': dict(cfg={'p': 6, 'q': 0, 'r': 1}, wrapper=False, lazy=True),
 }
@@ -95,6 +99,18 @@ def make_world(world_id):
     alg = Algebra(cfg['p'], cfg['q'], cfg['r'], wrapper=Tag if w['wrapper'] else None)
     other = Algebra(cfg['p'] + 1, cfg['q'], cfg['r'])
     mv = lambda keys, vals: alg.multivector(keys=tuple(keys), values=[F(v) for v in vals])
+    if w.get('inv6'):
+        ctx = dict(alg=alg, other=other, u=mv((1, 6), (2, 3)), v=mv((2, 24), (1, 2)), e=mv((3,), (1,)))
+        ctx['_operands'] = ['u', 'v', 'e']
+        return ctx
+    if w.get('spell'):
+        ctx = dict(alg=alg, other=other, x=mv((7, 1, 3), (5, 2, 3)), e=mv((3,), (1,)))
+
+        def coeff231(a):
+            return a.e231 * a
+        ctx['r231'] = alg.register(coeff231)
+        ctx['_operands'] = ['x', 'e']
+        return ctx
     if w.get('lazy'):
         ctx = dict(alg=alg, other=other, a=mv((2, 4), (3, 5)), B=mv((6, 10, 3), (2, -1, 4)), e=mv((2,), (1,)), E=mv((6,), (1,)), T=mv((14, 7), (1, 2)))
 
@@ -257,6 +273,13 @@ SYMBOLS.update({
     'l_aB': lambda c: c['a'] * c['B'], 'l_Ba': lambda c: c['B'] * c['a'], 'l_eE': lambda c: c['e'] * c['E'], 'l_Ee': lambda c: c['E'] * c['e'],
     'l_ipaT': lambda c: c['a'] | c['T'], 'l_ipTa': lambda c: c['T'] | c['a'], 'l_swB': lambda c: c['B'] >> c['a'], 'l_f': lambda c: c['f'](c['T'], c['a']),
 })
+SYMBOLS.update({
+    'i6_inv': lambda c: c['v'].inv(), 'i6_div': lambda c: c['u'] / c['v'], 'i6_gp': lambda c: c['u'] * c['v'], 'i6_invu': lambda c: c['u'].inv(),
+    's3_132': lambda c: c['x'].e132, 's3_231': lambda c: c['x'].e231, 's3_312b': lambda c: c['alg'].blades.e312 * c['x'], 's3_reg': lambda c: c['r231'](c['x']),
+    's3_kw': lambda c: c['alg'].multivector(e321=4, e1=1),
+})
+INV6_ALPHA = ['i6_inv', 'i6_div', 'i6_gp', 'i6_invu']
+SPELL_ALPHA = ['s3_132', 's3_231', 's3_312b', 's3_reg', 's3_kw']
 LAZY_ALPHA = ['l_aB', 'l_Ba', 'l_eE', 'l_Ee', 'l_ipaT', 'l_ipTa', 'l_swB', 'l_f']
 PERM_ALPHA = [f'pg{i}' for i in range(6)] + ['pf2', 'pf3']
 QUICK = ['gp1', 'gp2', 'gp5', 'sw2', 'inv5', 'f2', 'sq5', 'div0']
@@ -276,6 +299,10 @@ def alphabet(world_id):
         return {n: SYMBOLS[n] for n in LAZY_ALPHA}
     if WORLDS[_wid(world_id)].get('samename'):
         return {n: SYMBOLS[n] for n in SAMENAME_ALPHA}
+    if WORLDS[_wid(world_id)].get('inv6'):
+        return {n: SYMBOLS[n] for n in INV6_ALPHA}
+    if WORLDS[_wid(world_id)].get('spell'):
+        return {n: SYMBOLS[n] for n in SPELL_ALPHA}
     if WORLDS[_wid(world_id)].get('obj'):
         return {n: SYMBOLS[n] for n in OBJ_ALPHA}
     if WORLDS[_wid(world_id)].get('symf'):
@@ -363,6 +390,8 @@ def reference_check(world_id):
         'sq5': lambda: ref.gp(R('x5'), R('x5')), 'add2': lambda: Ref.add(R('x2'), R('e')), 'neg2': lambda: Ref.neg(R('x2')),
         'call2': lambda: ref.gp(R('x2'), R('e')), 'call1': lambda: ref.gp(R('x1'), R('e')),
     }
+    want.update({'i6_inv': lambda: ref.inverse(R('v')), 'i6_invu': lambda: ref.inverse(R('u')), 'i6_gp': lambda: ref.gp(R('u'), R('v')),
+                 'i6_div': lambda: ref.gp(R('u'), ref.inverse(R('v')))})
     want.update({'calls2': lambda: R('x2'), 'mapnum2': lambda: ref.gp(Ref.scale(R('x2'), 2), R('e')), 'mapsym': lambda: Ref.scale(R('x2'), 2)})
     want.update({'l_aB': lambda: ref.gp(R('a'), R('B')), 'l_Ba': lambda: ref.gp(R('B'), R('a')), 'l_eE': lambda: ref.gp(R('e'), R('E')), 'l_Ee': lambda: ref.gp(R('E'), R('e')),
                  'l_ipaT': lambda: ref.ip(R('a'), R('T')), 'l_ipTa': lambda: ref.ip(R('T'), R('a')), 'l_swB': lambda: ref.sw(R('B'), R('a')),
@@ -380,7 +409,9 @@ def reference_check(world_id):
             probs.append((name, 'raises ' + type(e).__name__))
             continue
         w = want[name]()
-        if w is None or not Ref.equal(got, w):
+        from ..common import close as _close
+        eq = (lambda a, b: _close(a, b, 1e-9)) if WORLDS[_wid(world_id)].get('inv6') else None   # the d>=6 inverse computes in floats
+        if w is None or not (Ref.equal(got, w, eq) if eq else Ref.equal(got, w)):
             probs.append((name, f'fresh result {got} differs from reference {w}'))
     return probs
 
@@ -529,7 +560,7 @@ def drive(ctx):
     # BFS over the large alphabet with whatever time is left (it stops at a level boundary and reports the cap)
     worlds = [f'{w}|quick' for w in WORLDS]
     if tier == 'thorough':
-        worlds += ['THREADS'] + [f'{w}|thorough' for w in WORLDS if not WORLDS[w].get('perm') and not WORLDS[w].get('redef') and not WORLDS[w].get('lazy') and not WORLDS[w].get('samename') and not WORLDS[w].get('obj') and not WORLDS[w].get('symf')]
+        worlds += ['THREADS'] + [f'{w}|thorough' for w in WORLDS if not WORLDS[w].get('perm') and not WORLDS[w].get('redef') and not WORLDS[w].get('lazy') and not WORLDS[w].get('samename') and not WORLDS[w].get('obj') and not WORLDS[w].get('symf') and not WORLDS[w].get('inv6') and not WORLDS[w].get('spell')]
     samples = []
     threads_done = False
     for world_id in worlds:
